@@ -3,4 +3,5 @@ let () = Driver.main [
   { Driver.name = "cs"; run = cs_run; judge = cs_judge };
   { Driver.name = "st"; run = st_run; judge = st_judge };
   { Driver.name = "ss"; run = ss_run; judge = ss_judge };
+  { Driver.name = "sm"; run = ss_run; judge = ss_judge };
 ]
